@@ -23,7 +23,7 @@ ASSUMPTIONS = ['only what EntryOfLark exposes is compared (name, value, child or
 SHARDS = {'quick': 8, 'thorough': 16}
 BUDGET_S = {'quick': 50, 'thorough': 540}
 N_TREES = {'quick': 480, 'thorough': 9000}
-MIN_OBS = {'entries_compared': {'quick': 50000, 'thorough': 1000000}}
+MIN_OBS = {'entries_compared': {'quick': 20000, 'thorough': 300000}}
 
 _SESSION = None
 
